@@ -169,6 +169,15 @@ def targeted_programs():
                              "lc": "Water", "label": "foreign"},
                             {"op": opn, "lw": 0, "wells": W([3, 4]), "tips": T([4, 5]), "vols": {"k": "l", "x": [5, 6]}, "lc": "Water", "label": "list"}]
                 progs.append(h)
+    # evo_dispense with per-well compositions, wells (and tips) listed bottom-up
+    lw4 = [gen.mk_plate("plate", 8, 3, 0, 3000, [100] * 8 + [0] * 16), gen.mk_trough("trough", 4, 2, 0, 5000, [2500, 2500])]
+    h = gen.header("evo/compositions", "evo", Fraction(1), 950, lw4, flags={"comp": True, "norm": False})
+    h["ops"] = [{"op": "evo_dispense", "lw": 0, "wells": W([3, 1, 0], 1), "tips": T([4, 2, 1]), "vols": {"k": "l", "x": [30, 20, 10]}, "lc": "W", "label": "bottom-up",
+                 "comps": [{"acid": (1, 1)}, {"base": (1, 1)}, {"salt": (1, 2), "water": (1, 2)}]},
+                {"op": "evo_dispense", "lw": 0, "wells": W([0, 1, 3], 1), "tips": T([1, 2, 4]), "vols": {"k": "s", "x": 10}, "lc": "W", "label": "top-down onto it",
+                 "comps": [{"dye": (1, 1)}, {"dye": (1, 2), "water": (1, 2)}, {"water": (1, 1)}]},
+                {"op": "evo_aspirate", "lw": 0, "wells": W([1, 3], 1), "tips": T([2, 4]), "vols": {"k": "l", "x": [5, 5]}, "lc": "W", "label": None}]
+    progs.append(h)
     # a trough served by several tips with ONE scalar volume: every tip takes that volume from the same real well
     lw3 = [gen.mk_plate("plate", 8, 3, 0, 3000, [1500] * 24), gen.mk_trough("trough", 8, 2, 100, 5000, [1000, 4950])]
     h = gen.header("evo/trough-scalar-volume", "evo", Fraction(1), 950, lw3, flags={"comp": False, "norm": False})
